@@ -7,7 +7,7 @@ export CARGO_NET_OFFLINE=true
 log=$out/confirm-m$k.log; : > $log
 cd $wt || exit 2
 git checkout -q -- . ; git status --short | grep -v '^??' >> $log
-demo=$(ls $out/m$k-demo.* 2>/dev/null | head -1)
+demo=$(ls $out/m$k-demo.py $out/m$k-demo.sh $out/m$k-demo.rs 2>/dev/null | head -1)
 rundemo() { case "$demo" in *.py) timeout 900 python3 "$demo";; *.sh) timeout 900 bash "$demo";; *.rs) dest=$(grep -ohE "(nextest-[a-z-]+|cargo-nextest|integration-tests)/tests/[A-Za-z0-9_]+\.rs" $out/m$k-meta.txt | head -1)
         [ -z "$dest" ] && { echo "rust demo: no destination found in meta"; return 99; }
         crate=${dest%%/*}; stem=$(basename $dest .rs); cp "$demo" "$wt/$dest"
